@@ -53,7 +53,8 @@ pub fn budget(prop: &str, tier: Tier) -> u64 {
     let q = match prop {
         "C01" => 40000,
         "C04" => 20000,
-        "C11" | "C12" => 24000,
+        "C11" => 20000,
+        "C12" => 24000,
         "C16" => 30000,
         "C05" => 24000,
         "C07" | "C08" => 25000,
